@@ -103,7 +103,7 @@ OWNER = {
 }
 
 
-PRIORITY = ['base', 'codec_rx', 'codec_tx', 'codec_ack', 'utils', 'context', 'handle', 'stream', 'packet_stream', 'accessors', 'opts', 'roundtrip']
+PRIORITY = ['base', 'codec_rx', 'codec_tx', 'codec_ack', 'utils', 'context', 'handle', 'stream', 'packet_stream', 'accessors', 'opts', 'roundtrip', 'wirehead']
 _INCLUDERS = None
 
 
